@@ -488,7 +488,7 @@ jwk_set_t *jwks_load_strn(jwk_set_t *jwk_set, const char *jwk_json_str,
 
 jwk_set_t *jwks_load(jwk_set_t *jwk_set, const char *jwk_json_str)
 {
-	int len;
+	size_t len;
 
 	if (jwk_json_str == NULL)
 		return NULL;
@@ -538,7 +538,7 @@ jwk_set_t *jwks_load_fromfp(jwk_set_t *jwk_set, FILE *input)
 
 jwk_set_t *jwks_create(const char *jwk_json_str)
 {
-	int len = 0;
+	size_t len = 0;
 
 	if (jwk_json_str != NULL)
 		len = strlen(jwk_json_str);
